@@ -70,6 +70,7 @@ CHECKS = {
     ], "assumptions": ["over-/under-reads are observed through PROT_NONE guard pages adjacent to the packet body"]},
     "C20": {"jobs": [
         {"name": "reason-code-tables", "target": "c20_reason", "env": ASAN_ENV},
+        {"name": "client-sweep", "target": "simnet", "args": ["--set", "C20"], "thorough_args": ["--thorough"]},
     ], "assumptions": ["tables transcribed from MQTT 5 sections 3.2.2.2, 3.4.2.1, 3.5.2.1, 3.6.2.1, 3.7.2.1, 3.9.3, 3.11.3, 3.14.2.1, 3.15.2.1"]},
 }
 
